@@ -53,6 +53,15 @@ PROPS = {
   "streams": [eng(3000, 150000), eng(2000, 100000, "catch")],
   "trusted_base": ENGINE_TB, "assumptions": ENGINE_ASSUME,
  },
+ "C06": {
+  "module": "Zog.Props.C06",
+  "theorems": [P + "C06." + t for t in ["dyn_facts_ok", "long_keys_never_panic", "empty_object_never_panics", "struct_input_never_panics", "any_segment_never_panics", "any_map_never_panics", "any_value_never_panics"]],
+  "streams": [st("dyn", 1500, 100000), st("http", 800, 12000)],
+  "trusted_base": ["PARTIAL: proved for the modelled glue (key buffer, nil provider, unexported fields, empty path segments, named map types, every dynamic kind) over all inputs; panics inside reflect / the standard library / user callbacks / stack exhaustion cannot be exhibited by the model and are covered only by the S-dyn stream (real code under recover)",
+                   "regenerated (go/ast + source shape): Gen.dynFacts — presence of the five guards in struct.go, internals/DataProviders.go, internals/PathBuilder.go",
+                   "modelled, not verified: lean/Zog/Dyn.lean"],
+  "assumptions": ["schema and destination match each other (a mismatch panics by design)", "acyclic, finite inputs"],
+ },
  "C07": {
   "module": "Zog.Props.C07",
   "theorems": [P + "C07." + t for t in ["constructors_complete", "reinit_independent_of_dirt", "reinit_is_fresh", "skips_first", "acquire_ownedAcc", "acquireMany_ownedAcc", "step_owned", "ownership_invariant"]],
@@ -88,6 +97,14 @@ PROPS = {
   "theorems": COMMON + [P + "C13." + t for t in ["prim_modes_agree", "prim_modes_agree_with_posts", "ptr_modes_agree", "same_field_keys", "custom_modes_agree", "coerce_own_type", "both_modes_refine"]],
   "streams": [st("modes", 3000, 150000), eng(2000, 60000)],
   "trusted_base": ENGINE_TB, "assumptions": ENGINE_ASSUME,
+ },
+ "C14": {
+  "module": "Zog.Props.C14",
+  "theorems": COMMON + [P + "C14." + t for t in ["absent_inputs_equivalent_prim", "absent_inputs_equivalent_slice", "absent_inputs_equivalent_ptr", "flat_vs_map_lookup", "key_per_source", "bool_rendering", "string_rendering", "int_rendering_examples", "nested_flat_source_fails", "engine_mirrors"]],
+  "streams": [st("front", 600, 20000), st("http", 800, 12000)],
+  "trusted_base": ["PARTIAL: the equivalence is proved node by node at depth 1 (how a value is absent, which tag names the key, string renderings of bool/string leaves); `atoi (toString n) = n` and the whole-record statement are validated by the S-front stream, not proved; below depth 1 the full statement is false (known finding D17) and the model mirrors the code",
+                   "external, taken from the standard library by the harness: encoding/json, net/http ParseForm / URL.Query, os.Getenv"] + ENGINE_TB,
+  "assumptions": ENGINE_ASSUME + ["environment variables cannot express lists; env values are trimmed (documented per-source differences)"],
  },
  "C15": {
   "module": "Zog.Props.C15",
@@ -127,7 +144,7 @@ PROPS = {
  "C10": {
   "module": "Zog.Props.C10",
   "theorems": [P + "C10." + t for t in ["get_append", "inv_add", "issue_map_well_formed", "root_key", "nonroot_key", "render_is_joinSpec", "key_source_tag_first", "key_zog_tag_next", "key_schema_key_last", "key_validate", "issue_path_override", "sanitize_keys", "sanitize_list_length", "sanitize_get"]],
-  "streams": [st("path", 3000, 200000), eng(2500, 100000)],
+  "streams": [st("path", 3000, 200000), eng(2500, 100000), st("front", 400, 10000)],
   "trusted_base": ["modelled, not verified: lean/Zog/Path.lean mirrors internals/PathBuilder.go String and internals/Issues.go ErrsMap.Add; keyFor mirrors internals/DataProviders.go GetKeyFromField"] + ENGINE_TB,
   "assumptions": ["no issue is addressed to the reserved key `$first` (IssuePath(\"$first\") is outside the property)"] + ENGINE_ASSUME,
  },
